@@ -34,9 +34,10 @@ const cidUndef = "github.com/ipfs/go-cid.Undef"
 func runC11(c *an.Ctx) {
 	p := c.P
 	const md = "ipld/merkledag"
-	fLinks, fData, fBuilder := p.Field(md, "ProtoNode", "links"), p.Field(md, "ProtoNode", "data"), p.Field(md, "ProtoNode", "builder")
-	fEncoded, fCached, fDirty := p.Field(md, "ProtoNode", "encoded"), p.Field(md, "ProtoNode", "cached"), p.Field(md, "ProtoNode", "linksDirty")
-	if !c.Need(fLinks != nil && fData != nil && fBuilder != nil && fEncoded != nil && fCached != nil && fDirty != nil, "merkledag.ProtoNode fields links,data,builder,encoded,cached,linksDirty") {
+	// ProtoNode is exported API; its unexported fields are found by ROLE (type), so that a
+	// rename of a field does not orphan the rules.
+	fLinks, fData, fBuilder, fEncoded, fCached, fDirty := c11Fields(p.Named(md, "ProtoNode"))
+	if !c.Need(fLinks != nil && fData != nil && fBuilder != nil && fEncoded != nil && fCached != nil && fDirty != nil, "merkledag.ProtoNode fields by role: []*format.Link, []byte, cid.Builder, *<local struct holding the encoding>, cid.Cid, bool") {
 		return
 	}
 	fns := p.PkgFuncs(md)
@@ -140,10 +141,33 @@ func runC11(c *an.Ctx) {
 	}
 	c.Min("O1 content-field stores on non-fresh nodes", nO1, 3)
 
-	// ---- O2: sortLinks followed by a store to encoded
+	// ---- O2: in-place sort of the links followed by a store to encoded.
+	// The sorter is found by role: a method of the node that sorts its own links field in place.
+	sorters := map[*ssa.Function]bool{}
+	for _, fn := range fns {
+		if len(fn.Params) == 0 || fn.Signature.Recv() == nil {
+			continue
+		}
+		for _, call := range an.Calls(fn, an.M("slices", "", "SortStableFunc"), an.M("slices", "", "SortFunc"), an.M("sort", "", "SliceStable"), an.M("sort", "", "Slice"), an.M("sort", "", "Stable"), an.M("sort", "", "Sort")) {
+			args := call.Common().Args
+			if len(args) == 0 {
+				continue
+			}
+			for _, r := range an.Roots(args[0], nil) {
+				if u, ok := r.(*ssa.UnOp); ok && u.Op == token.MUL {
+					if f, b := an.FieldOf(u.X); f == fLinks && an.SameObj(b, fn.Params[0]) {
+						sorters[fn] = true
+					}
+				}
+			}
+		}
+	}
 	nO2 := 0
 	for _, fn := range fns {
-		for _, call := range an.Calls(fn, an.M(md, "ProtoNode", "sortLinks")) {
+		for _, call := range an.AllCalls(fn) {
+			if callee := call.Common().StaticCallee(); callee == nil || !sorters[callee] {
+				continue
+			}
 			recv := an.Recv(call)
 			if recv == nil || an.IsFresh(recv) {
 				continue
@@ -172,7 +196,7 @@ func runC11(c *an.Ctx) {
 				if sum, ok := an.IsCallTo(st.Val, an.M("github.com/ipfs/go-cid", "Builder", "Sum")); ok {
 					// argument must be <base>.encoded.encoded and builder = <base>.CidBuilder()
 					arg := an.Args(sum)[0]
-					okArg := strings.HasSuffix(an.PathOf(arg), ".encoded.encoded") && strings.HasPrefix(an.PathOf(arg), an.PathOf(base))
+					okArg := c11IsOwnEncoding(arg, base, fEncoded)
 					bld, okB := an.IsCallTo(an.Recv(sum), an.M(md, "ProtoNode", "CidBuilder"))
 					okB = okB && an.SameObj(an.Recv(bld), base)
 					c.Check(okArg && okB, "O3", "R-FLOW", name, "cached=Sum(encoded)", st.Pos(),
@@ -207,7 +231,12 @@ func runC11(c *an.Ctx) {
 		}
 		// nil-error return implies cache defined: reached via Defined()==true edge or via the Sum store
 		defEdges := an.CallEdges(enc, an.M("github.com/ipfs/go-cid", "Cid", "Defined"), -1, func(v ssa.Value) bool {
-			return strings.HasSuffix(an.PathOf(v), ".cached")
+			if u, ok := v.(*ssa.UnOp); ok && u.Op == token.MUL {
+				f, _ := an.FieldOf(u.X)
+				return f == fCached
+			}
+			f, _ := an.FieldOf(v)
+			return f == fCached
 		}, true)
 		blocked := map[ssa.Instruction]bool{}
 		for _, st := range an.StoresToField(enc, fCached, recv) {
@@ -316,7 +345,8 @@ func runC11(c *an.Ctx) {
 	c.Min("O5 in-place stores to links obtained from a node", nO5, 1)
 
 	// ---- O6: encoder keys vs decoder accessors
-	if mi, fi := p.Func(md, "ProtoNode", "marshalImmutable"), p.Func(md, "", "fromImmutableNode"); c.Need(mi != nil && fi != nil, "marshalImmutable/fromImmutableNode") {
+	mi, fi := c11Codec(fns)
+	if c.Need(mi != nil && fi != nil, "dag-pb encoder (calls qp.BuildMap on a ProtoNode) and decoder (reads PBLink FieldHash) in package merkledag") {
 		keys := map[string]bool{}
 		for _, g := range an.LocalReach(mi) {
 			for _, call := range an.Calls(g, an.M("github.com/ipld/go-ipld-prime/fluent/qp", "", "MapEntry")) {
@@ -455,11 +485,94 @@ func linkFromNode(base ssa.Value) bool {
 				return true
 			}
 			if l, ok := sr.(*ssa.UnOp); ok && l.Op == token.MUL {
-				if f, _ := an.FieldOf(l.X); f != nil && f.Name() == "links" {
+				if f, _ := an.FieldOf(l.X); f != nil && isLinkSlice(f.Type()) {
 					return true
 				}
 			}
 		}
 	}
 	return false
+}
+
+// c11Fields finds the fields of ProtoNode by role (type).
+func c11Fields(n *types.Named) (links, data, builder, encoded, cached, dirty *types.Var) {
+	if n == nil {
+		return
+	}
+	st, ok := n.Underlying().(*types.Struct)
+	if !ok {
+		return
+	}
+	for i := 0; i < st.NumFields(); i++ {
+		f := st.Field(i)
+		t := f.Type()
+		switch {
+		case isLinkSlice(t):
+			links = f
+		case an.TypeIs(t, "github.com/ipfs/go-cid", "Builder"):
+			builder = f
+		case an.TypeIs(t, "github.com/ipfs/go-cid", "Cid"):
+			if _, isPtr := t.(*types.Pointer); !isPtr {
+				cached = f
+			}
+		case types.Identical(t.Underlying(), types.Typ[types.Bool]):
+			dirty = f
+		default:
+			if sl, ok := t.Underlying().(*types.Slice); ok && types.Identical(sl.Elem(), types.Typ[types.Byte]) {
+				data = f
+			} else if pt, ok := t.(*types.Pointer); ok {
+				if nn, ok := pt.Elem().(*types.Named); ok && nn.Obj().Pkg() == n.Obj().Pkg() {
+					if _, ok := nn.Underlying().(*types.Struct); ok {
+						encoded = f
+					}
+				}
+			}
+		}
+	}
+	return
+}
+
+// c11IsOwnEncoding: v is a []byte field of the encoding object held in base's encoded field.
+func c11IsOwnEncoding(v, base ssa.Value, fEncoded *types.Var) bool {
+	u, ok := v.(*ssa.UnOp)
+	if !ok || u.Op != token.MUL {
+		return false
+	}
+	inner, holder := an.FieldOf(u.X)
+	if inner == nil {
+		return false
+	}
+	sl, ok := inner.Type().Underlying().(*types.Slice)
+	if !ok || !types.Identical(sl.Elem(), types.Typ[types.Byte]) {
+		return false
+	}
+	hu, ok := holder.(*ssa.UnOp)
+	if !ok || hu.Op != token.MUL {
+		return false
+	}
+	f, b := an.FieldOf(hu.X)
+	return f == fEncoded && an.SameObj(b, base)
+}
+
+// c11Codec finds the dag-pb encoder and decoder of the package by role.
+func c11Codec(fns []*ssa.Function) (enc, dec *ssa.Function) {
+	for _, fn := range fns {
+		if fn.Parent() != nil {
+			continue
+		}
+		if enc == nil && len(an.Calls(fn, an.M("github.com/ipld/go-ipld-prime/fluent/qp", "", "BuildMap"))) > 0 {
+			enc = fn
+		}
+		if dec == nil {
+			for _, g := range an.LocalReach(fn)[:1] {
+				for _, call := range an.AllCalls(g) {
+					ci := an.Callee(call)
+					if ci.Name == "FieldHash" && strings.Contains(ci.Pkg, "go-codec-dagpb") {
+						dec = fn
+					}
+				}
+			}
+		}
+	}
+	return
 }
